@@ -164,9 +164,15 @@ TCl0 == /\ IsEvent("cl") /\ pc = "pre" /\ Ev.phase = 0 /\ Ev.r = run.r
         /\ LET c == run.cfg
                ok == /\ Len(Ev.list) = Len(run.pre)
                      /\ \A i \in DOMAIN Ev.list : SegmentOk(Ev.list[i], run.pre[i], c, G)
+               \* Level-2 conformance of S3: the recorded symbol lengths are those of the transcribed rule
+               lens(cl) == [j \in DOMAIN cl |-> Len(cl[j].u)]
+               same == /\ Len(Ev.list) = Len(run.pre)
+                       /\ \A i \in DOMAIN Ev.list : lens(Ev.list[i]) = SegmentLens(run.pre[i])
            IN /\ Judge(ok, {"C16", "C01"}, "segment", "")
+              /\ Judge(same, {"TOOL"}, "level2-drift-segment", "")
               /\ run' = [run EXCEPT !.cl = Ev.list, !.firstbad = FirstBad(ok, "segment")]
-        /\ pc' = "cl0" /\ l' = l + 1 /\ cnt' = Bump({"segment"})
+              /\ cnt' = Bump({"segment", IF same THEN "l2-seg-same" ELSE "l2-seg-diff"})
+        /\ pc' = "cl0" /\ l' = l + 1
         /\ UNCHANGED <<G, tcs, memo>>
 
 TCl1 == /\ IsEvent("cl") /\ pc = "cl0" /\ Ev.phase = 1 /\ Ev.r = run.r
@@ -331,7 +337,8 @@ TOut ==
          whySound == IF ~judged THEN "ok"
                      ELSE ExplTcs({i \in DOMAIN tcs : ~Accepts(lang, TheWord(tcs[i]))})
          m == MemoOf(c)
-     IN /\ Judge(~o.engine \/ o.compiles, {"C07"} \cup (IF EngineBound(c) THEN {"C01"} ELSE {}),
+     \* a pattern the engine rejects denotes no language: soundness and the exactness property of these settings fail
+     IN /\ Judge(~o.engine \/ o.compiles, {"C07"} \cup (IF EngineBound(c) THEN {"C01"} \cup ExactProps(c) ELSE {}),
                  "invalid", IF Has(o, "msg") THEN o.msg ELSE "")
         /\ Judge(~parsed \/ hirok, {"TOOL"}, "hir-outside-fragment", "")
         /\ Judge(okPrint, {"C16", "C06"}, "print", "")
